@@ -256,6 +256,15 @@ impl CtxCfg {
         }
         Some(CtxCfg { addr, types, vendors })
     }
+    /// Like `random`, but one time in `empty_one_in` the vendor-set list is empty (an endpoint
+    /// without vendor-defined support - an empty slice is a legal constructor argument).
+    pub fn random_maybe_empty(rng: &mut crate::rng::Rng, addr7: bool, empty_one_in: u64) -> Self {
+        let mut c = Self::random(rng, addr7);
+        if rng.chance(1, empty_one_in) {
+            c.vendors.clear();
+        }
+        c
+    }
     /// Random *valid* configuration (1-16 vendor sets of format 0/1, <= 30 types).
     pub fn random(rng: &mut crate::rng::Rng, addr7: bool) -> Self {
         let addr = if addr7 { rng.byte() & 0x7F } else { rng.byte() };
